@@ -216,3 +216,74 @@ for _n in (1, 2, 3):
             continue
         _mk_tables(_n, _ri, ("quick",), 900, 16 + 4 * _n)
         _mk_tables(_n, _ri, ("thorough",), 3400, 60)
+
+
+@symx("C07-render-leading-minwidth", timeout=900, kind="C+S", functions=F_T7,
+      bounds="ASCII-box tables, 1..3 columns x 1..3 rows x leading 0..3 x show_lines x table min_width in {none, 10, 30} x expand x "
+             "available width from the structural minimum to 40 (solver-enumerated, native): every line equally wide, never wider "
+             "than available, exactly the available width when expanding; with leading the rows are separated by that many blank "
+             "lines")
+def c07_leading(e):
+    ncol = int(e.mk("columns", 1, 3))
+    nrow = int(e.mk("rows", 1, 3))
+    leading = int(e.mk("leading", 0, 3))
+    show_lines = bool(e.mkbool("show_lines"))
+    mw = [None, 10, 30][int(e.mk("min_width", 0, 2))]
+    expand = bool(e.mkbool("expand"))
+    w = int(e.mk("width", 1, 40))
+    if w < (ncol + 1) + ncol * 6:       # room for the unwrapped cell text 'rXcY' plus padding: rows stay one line high
+        return True
+    t = Table(box=box_mod.ASCII, leading=leading, show_lines=show_lines, min_width=mw, expand=expand)
+    for ci in range(ncol):
+        t.add_column("H%d" % ci)
+    for r in range(nrow):
+        t.add_row(*["r%dc%d" % (r, ci) for ci in range(ncol)])
+    lines = cat.render_lines(cat.console(), t, w)
+    ws = cat.widths(lines)
+    if len(set(ws)) != 1 or ws[0] > w or (expand and ws[0] != w):
+        return False
+    if mw is not None and ws[0] < min(mw, w):
+        return False
+    # rows appear in order, each on lines of its own, separated by `leading` blank rows (when no row lines are drawn)
+    body = [l for l in lines if "r" in l and "c" in l]
+    if [l.split("|")[1].strip() for l in body] != ["r%dc0" % r for r in range(nrow)]:
+        return False
+    if leading and not show_lines:
+        idx = [lines.index(l) for l in body]
+        if any(b - a != leading + 1 for a, b in zip(idx, idx[1:])):
+            return False
+    return True
+
+
+_RBOXES = [None, box_mod.ASCII, box_mod.SIMPLE, box_mod.MINIMAL, box_mod.HORIZONTALS, box_mod.ROUNDED]
+
+
+@symx("C07-render-boxes-edges", timeout=900, kind="C+S", functions=F_T7 + ["rich/table.py:Table._extra_width"],
+      bounds="tables with box in {None, ASCII, SIMPLE, MINIMAL, HORIZONTALS, ROUNDED} x show_edge x show_header x expand / fixed "
+             "table width x 1..3 columns x pad_edge x available width from the structural minimum to 40: all lines equally wide, never "
+             "wider than available, exactly the available width (or the fixed width) when expanding")
+def c07_boxes(e):
+    bx = _RBOXES[int(e.mk("box", 0, len(_RBOXES) - 1))]
+    edge = bool(e.mkbool("show_edge"))
+    hdr = bool(e.mkbool("show_header"))
+    mode = int(e.mk("mode", 0, 2))        # 0 plain, 1 expand, 2 width=
+    ncol = int(e.mk("columns", 1, 3))
+    pad_edge = bool(e.mkbool("pad_edge"))
+    w = int(e.mk("width", 1, 40))
+    if w < (ncol + 1) + ncol * 6:
+        return True
+    fixed = w - 2 if mode == 2 else None
+    t = Table(box=bx, show_edge=edge, show_header=hdr, expand=(mode == 1), width=fixed, pad_edge=pad_edge)
+    for ci in range(ncol):
+        t.add_column("H%d" % ci)
+    t.add_row(*["r0c%d" % ci for ci in range(ncol)])
+    t.add_row(*["r1c%d" % ci for ci in range(ncol)])
+    lines = [l for l in cat.render_lines(cat.console(), t, w)]
+    ws = cat.widths(lines)
+    if not ws or len(set(ws)) != 1 or ws[0] > w:
+        return False
+    if mode == 1 and ws[0] != w:
+        return False
+    if mode == 2 and ws[0] != fixed:
+        return False
+    return True
